@@ -1596,7 +1596,7 @@ void World::open_table_library()
     tstate.reset(new TState());
     auto& T = *tstate;
     Outcome o = call(FaultSpec{}, [&] {
-        T.lib = plan.cfg.on_disk ? v2::engine_library::create(dir, schema) : v2::engine_library::create_temporary(schema);
+        T.lib = plan.cfg.on_disk ? v2::engine_library::create(api_dir(), schema) : v2::engine_library::create_temporary(schema);
         db = T.lib->database();
     });
     if (o.threw)
@@ -1620,7 +1620,7 @@ bool World::reload_table_library()
 {
     auto& T = *tstate;
     Outcome o = call(FaultSpec{}, [&] {
-        T.lib = v2::engine_library::load(dir);
+        T.lib = v2::engine_library::load(api_dir());
         db = T.lib->database();
     });
     if (o.threw)
